@@ -35,7 +35,7 @@ func init() {
 			"malformed bech32, empty/duplicate/unsorted denoms, nil nested messages, unset Any, unknown names) over all 17 message types and three routes, plus 3-8 adversarial queries per block over all 18 query methods and raw garbage requests; " +
 			"a violation is a panic in DeliverTx (recovered by baseapp), in ValidateBasic, in a handler whose ValidateBasic passed, or in a query. non-trivial = at least one message reached its handler and one was rejected; " +
 			"distinct = hash of (message type, route, outcome class) set and query method set",
-		Quick:      Tier{Runs: 500, BudgetSec: 50},
+		Quick:      Tier{Runs: 1500, BudgetSec: 50},
 		Thorough:   Tier{Runs: 30000, BudgetSec: 780},
 		RunSeed:    c20RunSeed,
 		Replay:     c20Replay,
@@ -658,7 +658,7 @@ func c20RunSeed(seed uint64, tier string) *Outcome {
 	tr := &kernel.Trace{Profile: "C20", Seed: seed, Spec: *spec}
 	rr := r.Fork(21)
 	g := &advGen{w: w, rng: rr.Fork(1)}
-	valid := w.txGens(map[string]int{"createPool": 1, "send": 1, "withdraw": 0, "createVestingAccount": 1, "split": 1, "move": 0, "delegate": 0})
+	valid := w.txGens(map[string]int{"createPool": 1, "send": 1, "withdraw": 1, "createVestingAccount": 1, "split": 2, "move": 1, "delegate": 2})
 	gens := []TxGen{g.txGen, g.txGen, g.txGen, g.txGen}
 	gens = append(gens, valid...)
 	// valid parameter updates applied the way governance applies them (message router, gov authority): queries and
